@@ -171,7 +171,7 @@ type genState struct {
 	futureOps   map[int][]Op // block index -> ops scheduled by a burst
 	futureSlash map[int][]Op
 	forceDt     map[int]DtSpec // block gaps fixed by a flood
-	futureGhost int            // block index of this run's validator-removal scenario (0 = none)
+	futureGhost int            // block index of this run's validator-removal scenario (-1 = none)
 }
 
 func (g *genState) amtDelegate(denom int) *Amt {
@@ -486,7 +486,7 @@ func GenSchedule(prop string, seed, run uint64, p *Profile) *Schedule {
 		}
 	}
 	s := &Schedule{Version: 1, Property: prop, Seed: seed, Run: run, Config: cfg, Mode: "open"}
-	g := &genState{rng: rng, p: p, cfg: &s.Config, nvals: len(cfg.Validators), absent: map[int]int{}, unbondNs: cfg.UnbondingTimeNs, futureOps: map[int][]Op{}, futureSlash: map[int][]Op{}, forceDt: map[int]DtSpec{}}
+	g := &genState{rng: rng, p: p, cfg: &s.Config, nvals: len(cfg.Validators), absent: map[int]int{}, unbondNs: cfg.UnbondingTimeNs, futureOps: map[int][]Op{}, futureSlash: map[int][]Op{}, forceDt: map[int]DtSpec{}, futureGhost: -1}
 	nb := rng.Range(p.MinBlocks, p.MaxBlocks)
 	if flood {
 		if nb < 36 {
